@@ -1,6 +1,7 @@
 #!/bin/sh
 # usage: lib/seedtest.sh <patch.diff> <PID>...   applies a seeded change to /repo, runs the checks, restores /repo
 patch="$1"; shift
+rm -rf /tmp/evidence_saved && cp -r evidence /tmp/evidence_saved
 git -C /repo apply "$patch" || exit 2
 for pid in "$@"; do
   out=$(./check "$pid" --tier quick 2>/tmp/seed_err.txt); rc=$?
@@ -8,3 +9,4 @@ for pid in "$@"; do
   grep -E "^violation:|^tie broken:" /tmp/seed_err.txt | head -2
 done
 git -C /repo checkout -- .
+rm -rf evidence && cp -r /tmp/evidence_saved evidence
